@@ -511,6 +511,9 @@ func handleChannelBindRequest(req Request, stunMsg *stun.Message) error { // nol
 	if err = channel.GetFrom(stunMsg); err != nil {
 		return buildAndSendErr(req.Conn, req.SrcAddr, err, badRequestMsg...)
 	}
+	if !channel.Valid() {
+		return buildAndSendErr(req.Conn, req.SrcAddr, proto.ErrInvalidChannelNumber, badRequestMsg...)
+	}
 
 	peerAddr := proto.PeerAddress{}
 	if err = peerAddr.GetFrom(stunMsg); err != nil {
